@@ -131,7 +131,6 @@ func (sk *SpaceKeeper) spacePlotter() {
 		sk.stateLock.Unlock()
 
 		// Step 2: plot space (wait for finishing)
-		verifGate("step1-done", sid)
 		ws.Plot()
 		verifGate("plotted", sid)
 
